@@ -164,18 +164,21 @@ Section Facts.
 
   Lemma sel_result_no_handle (hs : list (string * (list (aarg V) -> option exp))) : True. Proof. exact I. Qed.
 
-  (* the results of the statement API are statements: no handle *)
+  (* the results of the statement API are statements (no handle) - or, for ApplyIf, the value its function returned,
+     which is one of the arguments *)
   Definition R_ok (kh : string * (list (aarg V) -> option exp)) : Prop :=
-    forall args r, snd kh args = Some r -> handle_of r = None.
+    forall args r, snd kh args = Some r -> handle_of r = None \/ In (AExp r) args.
 
   Ltac r_ok :=
     repeat (apply Forall_cons; [|]); try apply Forall_nil;
     intros a0 r0 Hh; cbn [fst snd] in Hh; args_cases Hh;
     try (unfold opt_bind in Hh; match type of Hh with match ?u with _ => _ end = Some _ => destruct u; [|discriminate Hh] end);
-    try discriminate Hh; injection Hh as <-; reflexivity.
+    try discriminate Hh; injection Hh as <-;
+    try (left; reflexivity);
+    match goal with |- context [if ?b then _ else _] => destruct b; [right; right; left; reflexivity|left; reflexivity] end.
 
   Lemma handlers_result_stmt recv kh args r :
-    In kh (handlers_of V recv) -> snd kh args = Some r -> handle_of r = None.
+    In kh (handlers_of V recv) -> snd kh args = Some r -> handle_of r = None \/ In (AExp r) args.
   Proof.
     assert (F : Forall R_ok (handlers_of V recv)).
     { destruct recv; cbn [handlers_of]; try apply Forall_nil.
@@ -186,7 +189,7 @@ Section Facts.
     rewrite Forall_forall in F. intros Hin. exact (F kh Hin args r).
   Qed.
 
-  Lemma api_result_stmt rt m (recv : exp) args r : api rt m recv args = Some r -> handle_of r = None.
+  Lemma api_result_stmt rt m (recv : exp) args r : api rt m recv args = Some r -> handle_of r = None \/ In (AExp r) args.
   Proof.
     unfold api, lookup_h. destruct (find _ (handlers_of V recv)) as [kh|] eqn:E; [|discriminate].
     apply find_some in E. destruct E as [Hin _]. now apply (handlers_result_stmt recv kh args r).
@@ -194,7 +197,10 @@ Section Facts.
 
   Lemma entry_result_stmt name args (r : exp) : entry name args = Some r -> handle_of r = None.
   Proof.
-    unfold entry. destruct (String.eqb name "Select"); [apply api_result_stmt|].
+    unfold entry. destruct (String.eqb name "Select").
+    { intro H. assert (C : exists l, args = [AExps l]).
+      { unfold api, lookup_h in H. cbn in H. destruct args as [|[| |l| | | | | | | |] [|? ?]]; try discriminate. now exists l. }
+      destruct C as [l ->]. cbn in H. injection H as <-. reflexivity. }
     destruct (String.eqb name "SelectJson").
     { destruct args as [|[t| | | | | | | | | |] [|? ?]]; try discriminate. now injection 1 as <-. }
     destruct args as [|[t| | | | | | | | | |] [|? ?]]; try discriminate.
@@ -233,7 +239,9 @@ Section Facts.
       + exact (ctor_wfe name args e (A args Ha) H).
       + exact (meth_wfe key recv args e (IHe recv Hr) (A args Ha) H).
       + apply hwf_of_wfe_stmt; [exact (entry_wfe V name args e (A args Ha) H)|exact (entry_result_stmt name args e H)].
-      + apply hwf_of_wfe_stmt; [exact (api_wfe V rt m recv args e (W recv Hr) (A args Ha) Hq H)|exact (api_result_stmt rt m recv args e H)].
+      + destruct (api_result_stmt rt m recv args e H) as [Hn|Hin].
+        * apply hwf_of_wfe_stmt; [exact (api_wfe V rt m recv args e (W recv Hr) (A args Ha) Hq H)|exact Hn].
+        * rewrite Forall_forall in Ha. exact (IHe e (Ha (AExp e) Hin)).
       + apply hwf_of_wfe_stmt; [exact (api_with_ok V m w args (RExp e) (IHw w Hw) (A args Ha) H)|exact (api_with_result_stmt m w args e H)].
     - intros w H. cbn [builtn snd] in H.
       destruct H as [H|[(name & args & H)|(m & w0 & args & Hw & Ha & H)]].
